@@ -504,6 +504,17 @@ func drawStream(t *rapid.T, wname string, targets []string) streamCase {
 			}
 			specs = append(specs, pick(t, p, p.byBin[i][b], "lop"))
 		}
+	case "replayed": // a source that replays one (perfectly good) sample r times, e.g. a stuck DMA buffer: every item has r Q-values
+		// in ONE interval - for large r far beyond any borderline histogram (squares of counts above 255, chi-square up to 9s)
+		sp := pick(t, p, p.allPass, "replayed")
+		r := rapid.IntRange(2, w.S).Draw(t, "replays")
+		if rapid.Bool().Draw(t, "mostly") {
+			r = rapid.IntRange(w.S*3/4, w.S).Draw(t, "replays_many")
+		}
+		for i := 0; i < r; i++ {
+			specs = append(specs, sp)
+		}
+		fill(w.S)
 	case "one-bad": // all-pass samples plus exactly `allowed` stuck-at samples: passes, unless sample contents get mixed up
 		for i := 0; i < allowed; i++ {
 			specs = append(specs, sampleSpec{Kind: "const", Seed: rapid.SampledFrom([]uint64{0x00, 0xff, 0x55}).Draw(t, "stuck")})
